@@ -1,10 +1,11 @@
-\* Sierra + Cairo-0 classes across the 0.14.1 switch, <= 4 blocks, diffs of <= 2 entries
+\* two Sierra classes across the 0.14.1 switch, <= 4 blocks, diffs of <= 2 entries
+\* measured: 234 630 distinct states, ~2-3 min on 4 workers
 CONSTANTS
   Users = {"c1"}
   Sys = {}
   Slots = {"s1"}
   MaxV = 1
-  Cairo0 = {"k0"}
+  Cairo0 = {}
   Sierra = {"k1", "k2"}
   TxIds = {}
   L1Txs = {}
